@@ -19,6 +19,7 @@ arithmetic leaves that range (or builds an absurdly large string/list) is report
 discarded by the harness, like any other program on which CPython raises.
 """
 import ast
+import builtins
 import functools
 import json
 import signal
@@ -50,7 +51,7 @@ def _chk(v):
 
 
 def _prelude():
-    _range, _map, _filter, _zip, _enumerate, _reversed = range, map, filter, zip, enumerate, reversed
+    _range, _zip, _enumerate, _reversed = builtins.range, builtins.zip, builtins.enumerate, builtins.reversed
 
     def range(*a):  # docs: "returns a list of integers"
         r = _range(*a)
